@@ -606,16 +606,31 @@ def r6(prog):
     bid = ids[0]
 
     def first_branch_edge(n, lab):
+        """is this the edge a tine takes exactly when it is branch 0 (condition evaluated with the branch id = 0 vs != 0)"""
         if n.kind != "cond" or not isinstance(n.ast, dict):
             return False
-        c = unwrap(n.ast)
-        if c.get("k") == "bin" and c.get("op") in ("==", "!="):
-            l, r = unwrap(c["lhs"]), unwrap(c["rhs"])
-            for a, b in ((l, r), (r, l)):
-                if isinstance(a, dict) and a.get("k") == "mem" and a["n"] == bid and isinstance(b, dict) and b.get("k") == "int" and b["v"] == 0:
-                    return lab is (c["op"] == "==")
-        if c.get("k") == "mem" and c["n"] == bid:
-            return lab is False
+        from r_cli import eval_with
+
+        class _Sub(dict):
+            pass
+        # evaluate the condition with the branch id replaced by 0 and by 1: it must separate the two
+        def subst(e, val):
+            if isinstance(e, dict):
+                if e.get("k") == "mem" and e.get("n") == bid and "fid" not in e:
+                    return {"k": "int", "v": val}
+                return {k: subst(v, val) for k, v in e.items()}
+            if isinstance(e, list):
+                return [subst(x, val) for x in e]
+            return e
+        if not any(y.get("k") == "mem" and y.get("n") == bid for y in walk_nolambda(n.ast)):
+            return False
+        v0 = eval_with(subst(n.ast, 0), -1, 0)
+        v1 = eval_with(subst(n.ast, 1), -1, 0)
+        v2 = eval_with(subst(n.ast, 2), -1, 0)
+        if v0 is None or v1 is None or v2 is None:
+            return False
+        if bool(v0) != bool(v1) and bool(v1) == bool(v2):
+            return lab is bool(v0)
         return False
     reach = g.reachable(edge_ok=lambda n, t, lab: not first_branch_edge(n, lab))
     guarded = p.id not in reach
